@@ -224,4 +224,169 @@ class QueueFamily(common.Family):
     return ()
 
 
-FAMILIES = {'queue': QueueFamily()}
+AMODES = ('get', 'batch_nb', 'batch_b', 'iter', 'aget', 'abatch', 'aiter')
+
+
+class AsyncQueueFamily(common.Family):
+  """AsyncIteratorQueue: one async producer on an event loop, consumers that are
+  threads (get / get_batch / iteration) or coroutines (async_get,
+  async_get_batch, async for), all through the queue's thread pool."""
+  prop = 'C04'
+  name = 'aqueue'
+
+  def gen(self, rng, tier):
+    C = rng.choice([1, 2, 2, 3])
+    return {
+        'P': 1,
+        'items': [rng.randrange(0, 7)],
+        'rets': [rng.random() < 0.6],
+        'C': C,
+        'modes': [rng.choice(AMODES) for _ in range(C)],
+        'ks': [rng.choice([0, 1, 2, 3]) for _ in range(C)],
+        'cap': rng.choice([0, 0, 1, 2, 3]),
+        'yield_between': rng.random() < 0.5,
+        'extra_workers': rng.choice([0, 1, 2]),
+        'sim': {'fine': rng.random() < 0.2,
+                'stay': rng.choice([0.0, 0.0, 0.5, 0.8])},
+    }
+
+  def drive(self, cfg, sim):
+    import asyncio
+    import threading
+    from concurrent import futures
+    from ml_metrics._src.utils import iter_utils
+
+    C = cfg['C']
+    # every blocked consumer and every put occupies one pool thread
+    pool = futures.ThreadPoolExecutor(
+        max_workers=C + 2 + cfg['extra_workers'], thread_name_prefix='aqpool')
+    q = iter_utils.AsyncIteratorQueue(cfg['cap'], name='aq', thread_pool=pool)
+    loop = asyncio.new_event_loop()
+    lt = threading.Thread(target=loop.run_forever, name='loop')
+    lt.start()
+    got = [[] for _ in range(C)]
+    ends = [None] * C
+    n = cfg['items'][0]
+
+    class Source:
+      def __init__(self):
+        self.i = 0
+
+      def __aiter__(self):
+        return self
+
+      async def __anext__(self):
+        if cfg['yield_between']:
+          await asyncio.sleep(0)
+        if self.i >= n:
+          if cfg['rets'][0]:
+            raise StopAsyncIteration(('ret', 0))
+          raise StopAsyncIteration()
+        self.i += 1
+        return (0, self.i - 1)
+
+    def consume_thread(c):
+      mode, k = cfg['modes'][c], cfg['ks'][c]
+      try:
+        if mode == 'iter':
+          it = iter(q)
+          while True:
+            got[c].append(next(it))
+        while True:
+          if mode == 'get':
+            got[c].append(q.get())
+          elif mode == 'batch_nb':
+            got[c].extend(q.get_batch(k, block=False))
+          else:
+            got[c].extend(q.get_batch(k, block=True))
+      except StopIteration as e:
+        ends[c] = ['stop', list(e.args)]
+      except Exception as e:  # pylint: disable=broad-exception-caught
+        ends[c] = ['exc', type(e).__name__, str(e)]
+
+    async def consume_async(c):
+      mode = cfg['modes'][c]
+      try:
+        if mode == 'aiter':
+          it = q.__aiter__()
+          while True:
+            got[c].append(await it.__anext__())
+        while True:
+          if mode == 'aget':
+            got[c].append(await q.async_get())
+          else:
+            got[c].extend(await q.async_get_batch())
+      except StopAsyncIteration as e:
+        ends[c] = ['stop', list(e.args)]
+      except Exception as e:  # pylint: disable=broad-exception-caught
+        ends[c] = ['exc', type(e).__name__, str(e)]
+
+    waits = []
+    starters = []
+    prod_state = {}
+
+    def start_producer():
+      prod_state['f'] = asyncio.run_coroutine_threadsafe(
+          q.async_enqueue_from_iterator(Source()), loop)
+
+    starters.append(start_producer)
+    for c in range(C):
+      if cfg['modes'][c].startswith('a'):
+        def start(c=c):
+          waits.append(asyncio.run_coroutine_threadsafe(consume_async(c), loop))
+        starters.append(start)
+      else:
+        t = threading.Thread(target=consume_thread, args=(c,), name=f'cons{c}')
+        waits.append(t)
+        starters.append(t.start)
+    order = list(range(len(starters)))
+    for i in range(len(order) - 1, 0, -1):
+      j = sim.choose(i + 1, 'o')
+      order[i], order[j] = order[j], order[i]
+    for i in order:
+      starters[i]()
+    prod = 'ok'
+    try:
+      prod_state['f'].result()
+    except Exception as e:  # pylint: disable=broad-exception-caught
+      prod = f'exc:{type(e).__name__}:{e}'
+    for w in waits:
+      if isinstance(w, threading.Thread):
+        w.join()
+      else:
+        w.result()
+    loop.call_soon_threadsafe(loop.stop)
+    lt.join()
+    loop.close()
+    pool.shutdown(wait=True)
+    return {'got': got, 'ends': ends, 'prod': [prod], 'puts': [], 'gets': [],
+            'returned': list(q.returned), 'exhausted': q.exhausted}
+
+  def check(self, cfg, out):
+    res = QueueFamily.check(self, cfg, out)
+    for r in res:
+      r['sig'] = r['sig'] + ':async'
+    return res
+
+  def shrink(self, cfg):
+    if cfg['sim'].get('fine'):
+      c = copy.deepcopy(cfg); c['sim']['fine'] = False; yield c
+    if cfg['C'] > 1:
+      for drop in range(cfg['C']):
+        c = copy.deepcopy(cfg)
+        c['C'] -= 1
+        del c['modes'][drop]
+        del c['ks'][drop]
+        yield c
+    if cfg['items'][0] > 0:
+      c = copy.deepcopy(cfg); c['items'][0] -= 1; yield c
+    if cfg['yield_between']:
+      c = copy.deepcopy(cfg); c['yield_between'] = False; yield c
+    if cfg['cap'] > 1:
+      c = copy.deepcopy(cfg); c['cap'] -= 1; yield c
+
+  def nontrivial(self, cfg, out):
+    return out['switches'] > 4 and cfg['items'][0] > 0
+
+
+FAMILIES = {'queue': QueueFamily(), 'aqueue': AsyncQueueFamily()}
